@@ -186,6 +186,7 @@ def run(ctx):
     ctx.assume("callers announce disk changes through refresh_disk (contract of the session API)")
     from . import c17
     c17.rule_registry_atomic(ctx)
+    c17.rule_snapshot_shares(ctx)
     from . import c11
     c11.check_source_readers(ctx)
     return {}
@@ -229,6 +230,25 @@ def _short(p):
     return p.split("<")[0][-50:] if len(p) > 60 else p
 
 
+def _calls_through_lets(body, expr, depth=4):
+    """callees in `expr` and in the initialisers of the plain `let x = ..` locals it mentions (transitively): a lookup that
+    was given a name first is the same lookup"""
+    lets = {}
+    for n in H.walk(body):
+        if H.kind(n) == "Let" and n.get("init") is not None and H.kind(n.get("pat") or {}) == "Bind" and "local" in n["pat"]:
+            lets[n["pat"]["local"]] = n["init"]
+    out, seen, todo = [], set(), [(expr, 0)]
+    while todo:
+        e, d = todo.pop()
+        out += [c for _, c in H.calls(e)]
+        for x in H.walk(e):
+            loc = (x.get("res") or {}).get("local") if H.kind(x) == "Path" else None
+            if loc is not None and loc in lets and loc not in seen and d < depth:
+                seen.add(loc)
+                todo.append((lets[loc], d + 1))
+    return out
+
+
 def _guard_ok(body, setter_call, fld):
     """Every conditional around the setter must be the same-field guard (a test reading only that field's accessor) or the
     registry lookup `if let Some(input) = self.files.get(..)`; and the function has no early `return` besides `?`."""
@@ -255,7 +275,7 @@ def _guard_ok(body, setter_call, fld):
         if k == "If" and ((p.get("t") is not None and _inside(p["t"], cur)) or (p.get("e") is not None and _inside(p["e"], cur))):
             cond = H.peel(p["c"])
             if H.kind(cond) == "LetExpr":
-                init = [c for _, c in H.calls(cond["init"])]
+                init = _calls_through_lets(body, cond["init"])
                 if any(c.startswith("dashmap::DashMap") and c.endswith("::get") for c in init) and _inside(p["t"], cur):
                     cur, p = p, parents.get(id(p))
                     continue
